@@ -66,7 +66,7 @@ FeesFull == FeesQuick \o << [feeNum |-> 1, feeDen |-> 1], [feeNum |-> 1, feeDen 
 DTsQuick == {0, 500, 30000, 200000}
 DTsFull == {0, 500, 1000, 30000, 60000, 200000}
 
-Inv == C10State(st) /\ C11State(st) /\ Conserved(st) /\ NotStranded(st) /\ NotHalted(st) /\ C02StateModel(st) /\ StoredParamsValid(st)
+Inv == C10State(st) /\ C11State(st) /\ Conserved(st) /\ NotStranded(st) /\ NotHalted(st) /\ C02StateModel(st) /\ StoredParamsValid(st) /\ C15State(st)
 StepProps == [][ hist' # hist =>
                  LET ev == hist'[Len(hist')] IN C10Step(st, st', ev) /\ C02Step(st, st', ev) /\ C04Step(st, st', ev) ]_vars
 Emit == phase = "done" => PrintT(<<"TRACE", ToJson(hist)>>)
